@@ -2,7 +2,7 @@
 Driver commands of property C02 (core Lean only).  Command names start with "c02.".
 
   c02.run <blocks> <ops>
-     blocks = `len:csize:seed` joined by ','   (payload byte j of a block = (seed + j + (j/256)*13) % 256)
+     blocks = `len:csize:seed` joined by ','   (payload byte j of a block = (seed + j + (j/256)*13) % 256, or for seed ≥ 1000 the low byte of an integer hash of uint32(seed*31+j))
               or `x<hex>:csize` for an explicit payload
      ops    = joined by ',':  r<n> (Read of n bytes) | b (ReadByte) | s<file>.<block> (Seek) | B1 | B0 (Blocked)
      answer = per op `n:class:bf.bb:ef.eb:blocklen:hash` joined by ';'
@@ -15,7 +15,18 @@ namespace Hts.Drv.C02
 open Hts.Drv Hts.Model.Bgzf Hts.Spec.Flat
 
 def genData (seed len : Nat) : List UInt8 :=
-  (List.range len).map fun j => UInt8.ofNat ((seed + j + (j / 256) * 13) % 256)
+  if seed ≥ 1000 then
+    -- incompressible payload: multiplicative hash of the position (uint32 arithmetic)
+    (List.range len).map fun j =>
+      let x0 := (seed * 31 + j) % 4294967296
+      let x1 := x0 ^^^ (x0 / 65536)
+      let x2 := (x1 * 73244475) % 4294967296
+      let x3 := x2 ^^^ (x2 / 65536)
+      let x4 := (x3 * 73244475) % 4294967296
+      let x5 := x4 ^^^ (x4 / 65536)
+      UInt8.ofNat (x5 % 256)
+  else
+    (List.range len).map fun j => UInt8.ofNat ((seed + j + (j / 256) * 13) % 256)
 
 def parseMember (s : String) : Option Member :=
   match s.splitOn ":" with
